@@ -123,8 +123,8 @@ func (v MyF64) IsZero() bool   { return v == 1.5 }
 func (s MyStr) String() string { return "<" + string(s) + ">" }
 
 // Len is the BYTE length (containers often have a Len method; a string's measure is its character count).
-func (s MyStr) Len() int { return len(s) + 1 }
-func (u MyU8) String() string  { return "u8" }
+func (s MyStr) Len() int      { return len(s) + 1 }
+func (u MyU8) String() string { return "u8" }
 
 // NamedScalars maps a scalar kind name to its named variant.
 var NamedScalars = map[string]reflect.Type{
@@ -188,17 +188,17 @@ type EntsT struct {
 }
 
 var Types = map[string]reflect.Type{
-	"DirT":  reflect.TypeOf(DirT{}),
-	"EntsT": reflect.TypeOf(EntsT{}),
-	"Leaf":  reflect.TypeOf(Leaf{}),
-	"Mid":   reflect.TypeOf(Mid{}),
-	"Top":   reflect.TypeOf(Top{}),
-	"Tree":  reflect.TypeOf(Tree{}),
-	"Emb":   reflect.TypeOf(Emb{}),
-	"Multi": reflect.TypeOf(Multi{}),
-	"Stamp": reflect.TypeOf(Stamp{}),
-	"ItemA": itemA(),
+	"DirT":   reflect.TypeOf(DirT{}),
+	"EntsT":  reflect.TypeOf(EntsT{}),
+	"Leaf":   reflect.TypeOf(Leaf{}),
+	"Mid":    reflect.TypeOf(Mid{}),
+	"Top":    reflect.TypeOf(Top{}),
+	"Tree":   reflect.TypeOf(Tree{}),
+	"Emb":    reflect.TypeOf(Emb{}),
+	"Multi":  reflect.TypeOf(Multi{}),
+	"Stamp":  reflect.TypeOf(Stamp{}),
+	"ItemA":  itemA(),
 	"Item2A": item2A(),
 	"Item2B": item2B(),
-	"ItemB": itemB(),
+	"ItemB":  itemB(),
 }
